@@ -5,6 +5,7 @@ import (
 	"math"
 	"os"
 	"strconv"
+	"strings"
 	"testing"
 
 	"github.com/alecthomas/participle/v2"
@@ -22,6 +23,12 @@ type numSliceG[T any] struct {
 }
 type numMultiG[T any] struct {
 	V []T `"=" @( Num Num Num )`
+}
+// an optional tail that can be entered and abandoned after the numeric capture
+type numTailG[T any] struct {
+	V T      `"=" @Num`
+	W string `( "," "," @Num )?`
+	X string `( "," @Num )?`
 }
 type namedI16 int16
 type namedF32 float32
@@ -79,7 +86,30 @@ func numCheck[T any](res *xResult, name, kind string, bits int) {
 		res.violate("Build numMultiG[%s]: %v", name, err)
 		return
 	}
+	pt, err := participle.Build[numTailG[T]](participle.Lexer(numLexer), participle.Elide("Whitespace", "Comment"), participle.UseLookahead(3))
+	if err != nil {
+		res.violate("Build numTailG[%s]: %v", name, err)
+		return
+	}
 	for _, text := range numTexts {
+		// a conversion error is reported as such, at the captured token, also when an optional part after it was
+		// tried, got further and was abandoned
+		if want, ok := numOracle(kind, bits, text); !ok {
+			for _, tail := range []string{" , 7", " , , 7", ""} {
+				res.Evaluations++
+				res.Distinct++
+				input := "=" + text + tail
+				vt, err := pt.ParseString("f", input)
+				got := "<nil>"
+				if vt != nil {
+					got = fmt.Sprint(vt.V)
+				}
+				checkNum(res, name+" before an optional tail", input, got, err, want, false)
+				if err != nil && !strings.Contains(err.Error(), strconv.Quote(text)) {
+					res.violate("%s from %q: the error %q does not name the text that failed to convert", name, input, err)
+				}
+			}
+		}
 		for _, neg := range []string{"", "-", "- ", "-/*c*/ "} {
 			if neg != "" && kind == "uint" && text != "0" {
 				continue
@@ -159,7 +189,7 @@ func checkNum(res *xResult, name, input, got string, err error, want string, ok 
 // TestVerif_C17_NumericOracle: numeric captures agree with strconv for every numeric kind.
 func TestVerif_C17_NumericOracle(t *testing.T) {
 	res := &xResult{Check: "numeric captures vs strconv", Property: "C17", Exhaustive: true,
-		Bound: fmt.Sprintf("%d texts (boundary values of every width, base prefixes, underscores, floats, junk) x {plain, '-' prefix token, '-' then elided whitespace, '-' then elided comment} x 17 field types (all int/uint/float kinds, named int16 / float32 / int64 / uint64 / float64), each as T, *T, []T filled by several captures and []T filled by one capture of three tokens", len(numTexts)),
+		Bound: fmt.Sprintf("%d texts (boundary values of every width, base prefixes, underscores, floats, junk) x {plain, '-' prefix token, '-' then elided whitespace, '-' then elided comment} x 17 field types (all int/uint/float kinds, named int16 / float32 / int64 / uint64 / float64), each as T, *T, []T filled by several captures, []T filled by one capture of three tokens, and T followed by optional groups that are entered and abandoned (lookahead 3)", len(numTexts)),
 		Rule:  "distinct (field type, input) pairs; non-trivial = strconv rejects the text or several tokens are joined"}
 	_ = math.MaxInt8
 	_ = os.Getenv
